@@ -181,6 +181,8 @@ pub struct ExpAtt {
     pub made_op: OpRef,
     pub submit_op: OpRef,
     pub from_set: Option<OpRef>,
+    /// the scope (its opening op) that carried the attachment, for the local route
+    pub scope_op: Option<OpRef>,
 }
 
 #[derive(Clone, Debug, PartialEq)]
@@ -468,6 +470,7 @@ impl Model {
                         made_op: *made,
                         submit_op: op,
                         from_set,
+                        scope_op,
                     }),
                     Entry::Props { parent, props, op: made } => self.atts.push(ExpAtt {
                         target: parent.map(PRef::Node).unwrap_or(it.parent),
@@ -479,6 +482,7 @@ impl Model {
                         made_op: *made,
                         submit_op: op,
                         from_set,
+                        scope_op,
                     }),
                 }
             }
@@ -807,6 +811,7 @@ impl Model {
                             made_op: op,
                             submit_op: op,
                             from_set: None,
+                            scope_op: None,
                         });
                     }
                 }
@@ -835,6 +840,7 @@ impl Model {
                             made_op: op,
                             submit_op: op,
                             from_set: None,
+                            scope_op: None,
                         });
                     }
                 }
